@@ -185,6 +185,11 @@ func FamWire[T any](c Codec[T], seed int64) WireRecord {
 	add(SysCall{Tag: 812, From: "A", Method: "FailVal", Ret: canon(v12), Err: errText(e12), Done: true})
 	v13, e13 := p.rb.EchoStruct(ctx, 813, Rec{})
 	add(SysCall{Tag: 813, From: "B", Method: "EchoStruct", Ret: canon(v13), Err: errText(e13), Done: true})
+	// a closure that takes only a context: its invocation frame carries an empty argument array
+	v14, e14 := p.ra.Call0(ctx, 814, func(ctx context.Context) (int, error) { return 8140, nil })
+	add(SysCall{Tag: 814, From: "A", Method: "Call0", Ret: canon(v14), Err: errText(e14), Done: true})
+	e15 := p.rb.Notify0(ctx, 815)
+	add(SysCall{Tag: 815, From: "B", Method: "Notify0", Err: errText(e15), Done: true})
 
 	for _, q := range []struct {
 		name  string
@@ -237,6 +242,8 @@ func FamForeign(seed int64) WireRecord {
 	send(906, `{"call":"c6","function":"FailVal","args":[906,3,"<nil>"],"extra":true}`, "unknown extra key")
 	send(907, `{"call":"c7","function":"EchoInt","args":[907,0]}`, "zero result")
 	send(908, `{"call":"c8","function":"EchoStr","args":[908,""]}`, "empty string result")
+	send(909, `{"call":"c9","function":"Notify0","args":[909]}`, "function without any return value")
+	send(910, `{"call":"c10","function":"Greet","args":[910,"x"]}`, "function with a value and no error")
 	cancel()
 	reqIn.Close(errors.New("closed"))
 	resIn.Close(errors.New("closed"))
